@@ -967,7 +967,7 @@ pub fn meta(id: &str, tier: &str) -> Option<Meta> {
 
 #[cfg(all(feature = "memchk", not(feature = "conc")))]
 fn c23_cap(tier: &str) -> u64 {
-    if tier == "quick" { 45 } else { 2400 }
+    if tier == "quick" { 45 } else { 1200 }
 }
 
 /// History sets borrowed by C23: the quick sets of the sequential properties whose histories
